@@ -111,15 +111,27 @@ Proof.
   rewrite top_newline. reflexivity.
 Qed.
 
-Definition need (sl : list (bytes * list (bytes * bytes))) : nat := fold_right (fun s acc => 2 * length (snd s) + 3 + acc) 1 sl.
-Definition all_toks (sl : list (bytes * list (bytes * bytes))) : list token := flat_map (fun s => struct_toks (fst s) (snd s)) sl.
-Definition add_all (f : file) (sl : list (bytes * list (bytes * bytes))) : file :=
-  fold_left (fun f s => add_struct f (struct_of (fst s) (snd s))) sl f.
+(* a definition may be followed by any number of blank lines (extra newline tokens) *)
+Definition bsdef := (bytes * list (bytes * bytes) * nat)%type.
+Definition def_toks (s : bsdef) : list token := struct_toks (fst (fst s)) (snd (fst s)) ++ repeat nlT (snd s).
+Definition need (sl : list bsdef) : nat := fold_right (fun s acc => 2 * length (snd (fst s)) + 3 + snd s + acc) 1 sl.
+Definition all_toks (sl : list bsdef) : list token := flat_map def_toks sl.
+Definition add_all (f : file) (sl : list bsdef) : file :=
+  fold_left (fun f s => add_struct f (struct_of (fst (fst s)) (snd (fst s)))) sl f.
+
+Lemma top_newlines : forall k g f tail c,
+  top_loop (k + g) f [] 0%N false false (mk (res (repeat nlT k) tail) c false)
+  = top_loop g f [] 0%N false false (mk tail (match k with O => c | _ => nlT end) false).
+Proof.
+  induction k as [|k IH]; intros g f tail c; [reflexivity|].
+  cbn [repeat plus]. change (nlT :: repeat nlT k) with ([nlT] ++ repeat nlT k). rewrite res_app, top_newline, IH.
+  destruct k; reflexivity.
+Qed.
 
 Lemma need_le sl : need sl <= length (all_toks sl) + 1.
 Proof.
-  induction sl as [|[nm fl] sl IH]; [cbn; lia|]. cbn [need fold_right all_toks flat_map fst snd]. fold (need sl). fold (all_toks sl).
-  rewrite app_length. unfold struct_toks. rewrite !app_length. cbn [length].
+  induction sl as [|[[nm fl] k] sl IH]; [cbn; lia|]. cbn [need fold_right all_toks flat_map fst snd]. fold (need sl). fold (all_toks sl).
+  rewrite app_length. unfold def_toks, struct_toks. cbn [fst snd]. rewrite !app_length, repeat_length. cbn [length].
   assert (length (fields_toks fl) = 4 * length fl).
   { induction fl as [|f fl IHf]; [reflexivity|]. cbn [fields_toks flat_map]. fold (fields_toks fl). rewrite app_length, IHf. cbn [field_toks length]. lia. }
   lia.
@@ -128,13 +140,15 @@ Qed.
 Theorem top_structs : forall sl g f tail c,
   exists s', top_loop (need sl + g) f [] 0%N false false (mk (res (all_toks sl) (NF [] :: tail)) c false) = POk (add_all f sl) s'.
 Proof.
-  induction sl as [|[nm fl] sl IH]; intros g f tail c.
+  induction sl as [|[[nm fl] k] sl IH]; intros g f tail c.
   - cbn [need fold_right all_toks flat_map res map app add_all fold_left plus]. rewrite top_eof. eexists. reflexivity.
-  - cbn [all_toks flat_map fst snd]. fold (all_toks sl). rewrite res_app.
-    replace (need ((nm, fl) :: sl) + g) with (S (2 * length fl + S (S (need sl + g)))) by (cbn [need fold_right snd]; fold (need sl); lia).
-    rewrite top_struct.
-    replace (2 * length fl + S (need sl + g)) with (need sl + (2 * length fl + S g)) by lia.
-    cbn [add_all fold_left fst snd]. apply IH.
+  - cbn [all_toks flat_map]. fold (all_toks sl). unfold def_toks at 1. cbn [fst snd].
+    rewrite <- (app_assoc (struct_toks nm fl)), (res_app (struct_toks nm fl)).
+    unfold need at 1. cbn [fold_right fst snd]. fold (need sl).
+    replace (2 * length fl + 3 + k + need sl + g) with (S (2 * length fl + S (S (k + (need sl + g))))) by lia.
+    rewrite top_struct, res_app.
+    replace (2 * length fl + S (k + (need sl + g))) with (k + (need sl + (2 * length fl + S g))) by lia.
+    rewrite top_newlines. cbn [add_all fold_left fst snd]. apply IH.
 Qed.
 
 (* ---------- from the text: tokenizer inversion (front/LexInv.v) + the lemmas above ---------- *)
@@ -147,14 +161,15 @@ Definition ident_ok (i : ident) : Prop :=
   is_letter (ic i) = true /\ Forall (fun x => is_idc x = true) (itl i) /\ keyword (ibytes i) = kIdent.
 Definition Wi (i : ident) : lexeme := W (ic i) (itl i).
 
-Definition sdef := (ident * list (ident * ident))%type.        (* struct name, fields (type, name) *)
+Definition sdef := (ident * list (ident * ident) * nat)%type.        (* struct name, fields (type, name), blank lines after it *)
 Definition field_lex (f : ident * ident) : list lexeme := [Wi (fst f); Wi (snd f); T1 59%N kSemi; T1 10%N kNewline].
 Definition struct_lex (s : sdef) : list lexeme :=
-  [W 115%N [116; 114; 117; 99; 116]%N; Wi (fst s); T1 123%N kOpenCu; T1 10%N kNewline] ++ flat_map field_lex (snd s) ++ [T1 125%N kCloseCu; T1 10%N kNewline].
+  [W 115%N [116; 114; 117; 99; 116]%N; Wi (fst (fst s)); T1 123%N kOpenCu; T1 10%N kNewline] ++ flat_map field_lex (snd (fst s)) ++ [T1 125%N kCloseCu; T1 10%N kNewline]
+  ++ repeat (T1 10%N kNewline) (snd s).
 Definition schema_lex (sl : list sdef) : list lexeme := flat_map struct_lex sl.
 
-Definition bdef (s : sdef) : bytes * list (bytes * bytes) := (ibytes (fst s), map (fun f => (ibytes (fst f), ibytes (snd f))) (snd s)).
-Definition sdef_ok (s : sdef) : Prop := ident_ok (fst s) /\ Forall (fun f => ident_ok (fst f) /\ ident_ok (snd f)) (snd s).
+Definition bdef (s : sdef) : bsdef := (ibytes (fst (fst s)), map (fun f => (ibytes (fst f), ibytes (snd f))) (snd (fst s)), snd s).
+Definition sdef_ok (s : sdef) : Prop := ident_ok (fst (fst s)) /\ Forall (fun f => ident_ok (fst f) /\ ident_ok (snd f)) (snd (fst s)).
 
 Definition file0 : file := {| structs := []; messages := []; enums := []; unions := []; consts := []; imports := []; gopackage := [] |}.
 (* the File the text states *)
@@ -167,29 +182,31 @@ Proof. intros (A & B & _). split; assumption. Qed.
 
 Lemma schema_toks sl : Forall sdef_ok sl -> map tok_of (schema_lex sl) = all_toks (map bdef sl).
 Proof.
-  induction 1 as [|[nm fl] sl [Hn Hf] _ IH]; [reflexivity|].
+  induction 1 as [|[[nm fl] k] sl [Hn Hf] _ IH]; [reflexivity|].
   cbn [schema_lex flat_map map all_toks]. fold (schema_lex sl). fold (all_toks (map bdef sl)). rewrite map_app, IH. f_equal.
-  cbn [fst snd] in *. unfold struct_lex, struct_toks, bdef. cbn [fst snd map app]. rewrite (tok_of_Wi nm Hn).
+  cbn [fst snd] in *. unfold struct_lex, def_toks, struct_toks, bdef. cbn [fst snd map app]. rewrite (tok_of_Wi nm Hn).
   change (tok_of (W 115%N [116; 114; 117; 99; 116]%N)) with structT.
   change (tok_of (T1 123%N kOpenCu)) with openT. change (tok_of (T1 10%N kNewline)) with nlT.
-  do 4 f_equal. rewrite map_app. f_equal.
-  induction Hf as [|[t n] fl [Ht Hnm] _ IHf]; [reflexivity|].
-  cbn [flat_map map fields_toks]. fold (fields_toks (map (fun f => (ibytes (fst f), ibytes (snd f))) fl)). rewrite map_app, IHf. f_equal.
-  cbn [field_lex field_toks fst snd map]. rewrite (tok_of_Wi t Ht), (tok_of_Wi n Hnm). reflexivity.
+  do 4 f_equal. rewrite !map_app, <- app_assoc. f_equal.
+  - induction Hf as [|[t n] fl [Ht Hnm] _ IHf]; [reflexivity|].
+    cbn [flat_map map fields_toks]. fold (fields_toks (map (fun f => (ibytes (fst f), ibytes (snd f))) fl)). rewrite map_app, IHf. f_equal.
+    cbn [field_lex field_toks fst snd map]. rewrite (tok_of_Wi t Ht), (tok_of_Wi n Hnm). reflexivity.
+  - cbn [map app]. do 2 f_equal. clear. induction k as [|k IHk]; [reflexivity|]. cbn [repeat map]. now rewrite IHk.
 Qed.
 
 Lemma kw_struct_ok : lex_ok (W 115%N [116; 114; 117; 99; 116]%N).
 Proof. cbn [lex_ok]. split; [reflexivity|repeat constructor]. Qed.
 Lemma schema_lex_ok sl : Forall sdef_ok sl -> Forall lex_ok (schema_lex sl).
 Proof.
-  induction 1 as [|[nm fl] sl [Hn Hf] _ IH]; [constructor|].
+  induction 1 as [|[[nm fl] k] sl [Hn Hf] _ IH]; [constructor|].
   cbn [schema_lex flat_map]. apply Forall_app. split; [|exact IH]. cbn [fst snd] in *.
   unfold struct_lex. cbn [fst snd app].
   constructor; [exact kw_struct_ok|]. constructor; [now apply lex_ok_Wi|]. constructor; [reflexivity|]. constructor; [reflexivity|].
-  apply Forall_app. split; [|repeat constructor].
-  induction Hf as [|[t n] fl [Ht Hnm] _ IHf]; [constructor|]. cbn [flat_map]. apply Forall_app. split; [|exact IHf].
-  cbn [field_lex fst snd]. constructor; [now apply lex_ok_Wi|]. constructor; [now apply lex_ok_Wi|]. constructor; [reflexivity|].
-  constructor; [reflexivity|constructor].
+  apply Forall_app. split.
+  - induction Hf as [|[t n] fl [Ht Hnm] _ IHf]; [constructor|]. cbn [flat_map]. apply Forall_app. split; [|exact IHf].
+    cbn [field_lex fst snd]. constructor; [now apply lex_ok_Wi|]. constructor; [now apply lex_ok_Wi|]. constructor; [reflexivity|].
+    constructor; [reflexivity|constructor].
+  - constructor; [reflexivity|]. constructor; [reflexivity|]. clear. induction k as [|k IHk]; [constructor|]. cbn [repeat]. constructor; [reflexivity|exact IHk].
 Qed.
 
 (* C11 on the core sub-language, end to end: for EVERY list of structs whose names, field types and field names are
